@@ -440,3 +440,61 @@ func VH05d_burst() {
 	verif.Reach("burst-epilogue")
 	sock.Close()
 }
+
+// VH05e_deep_header: the hop limit is raised (TTL 16) and a request arrives
+// that has already crossed d devices (d = 0..14 routing words before the id
+// word, every depth a separate path; the words are solver variables). The
+// application receives it (releasing the request or not) and replies: the reply
+// is written to the requester's connection with exactly the d+1 words the
+// request carried, in order, followed by the reply body -- for every depth the
+// hop limit admits, not only for the few words short chains produce.
+func VH05e_deep_header() {
+	proto := cooked[verif.Choice("proto", 2)]
+	lab := "C05/" + proto + "/deep-header"
+	sock := vp.New(proto)
+	verif.Assert(sock.SetOption(mangos.OptionTTL, 16) == nil, lab+"/set-ttl")
+	side := vt.Listen(sock, "a")
+	p0 := side.Peer("p0")
+	p1 := side.Peer("p1")
+	s := &sctx{name: "sock", sock: sock}
+	if verif.Choice("api", 2) == 1 {
+		c1, err := sock.OpenContext()
+		verif.Assert(err == nil, lab+"/open-context")
+		s = &sctx{name: "ctx", c: c1}
+	}
+	d := verif.Choice("depth", 15)
+	var hdr []byte
+	for i := 0; i < d; i++ {
+		w := verif.Bytes("hop", 4)
+		verif.Assume(w[0]&0x80 == 0)
+		hdr = append(hdr, w...)
+	}
+	id := verif.Bytes("id", 4)
+	verif.Assume(id[0]&0x80 != 0)
+	hdr = append(hdr, id...)
+	p0.Deliver(append(append([]byte{}, hdr...), 'q'))
+	verif.Quiesce()
+	m, err := s.recvMsg()
+	verif.Assert(err == nil && len(m.Body) == 1 && m.Body[0] == 'q', lab+"/request-within-the-hop-limit-not-delivered")
+	if err != nil {
+		return
+	}
+	if verif.Choice("free-request", 2) == 1 {
+		m.Free()
+	}
+	r := mangos.NewMessage(1)
+	r.Body = append(r.Body, 'r')
+	verif.Assert(s.sendMsg(r) == nil, lab+"/reply-send")
+	verif.Quiesce()
+	verif.Assert(len(p0.Sent) == 1 && len(p1.Sent) == 0, lab+"/reply-not-transmitted-once-on-the-requesters-connection")
+	if len(p0.Sent) == 1 {
+		want := append(append([]byte{}, hdr...), 'r')
+		got := p0.Sent[0].Bytes()
+		verif.Assert(len(got) == len(want), lab+"/reply-header-length-differs-from-the-requests")
+		if len(got) == len(want) {
+			verif.Assert(verif.BytesEq(got, want), lab+"/reply-bytes-are-request-header-plus-body")
+		}
+	}
+	verif.Reach("deep-header-routed")
+	sock.Close()
+}
